@@ -85,7 +85,7 @@ Proof.
       destruct (own_th cs _ _ _ _ _ HRc E E0) as (Et & xo & Exo); cbn [ev_inst]; rewrite Et, (oi_get_some _ _ _ Exo);
       destruct (conf_of_inst _ _ _ _ _ HRc E0 Exo) as (Hcf & Hl & _); rewrite Hcf, Hl;
       pose proof (HP _ _ _ E0 Exo) as HPx end.
-    destruct HPx as [Pcommit Pstop Pexited Palive Pcode Pdecided Prelaunch Pgaveup Prestarts Ppre Pfstopped Prunctx Pendst Pgone Pnostop Pstatus].
+    destruct HPx as [Pcommit Pstop Pexited Palive Pcode Pdecided Prelaunch Pgaveup Prestarts Ppre Pfstopped Prunctx Pendst Pgone Pnostop Pstatus Ps1 Pendst2].
     match goal with E : pc _ = IStateSet |- _ => rewrite E in * end.
     destruct (Nat.eqb_spec (launches i2) 0) as [|Hl0]; [reflexivity|].
     destruct Prelaunch as (c & Hc & (Hpol & Hb) & Hel); [reflexivity|lia|].
@@ -136,7 +136,7 @@ Proof.
       destruct (own_th cs _ _ _ _ _ HRc E E0) as (Et & xo & Exo); cbn [ev_inst]; rewrite Et, (oi_get_some _ _ _ Exo);
       destruct (conf_of_inst _ _ _ _ _ HRc E0 Exo) as (Hcf & Hl & _); rewrite Hcf, Hl;
       pose proof (HP _ _ _ E0 Exo) as HPx end.
-    destruct HPx as [Pcommit Pstop Pexited Palive Pcode Pdecided Prelaunch Pgaveup Prestarts Ppre Pfstopped Prunctx Pendst Pgone Pnostop Pstatus].
+    destruct HPx as [Pcommit Pstop Pexited Palive Pcode Pdecided Prelaunch Pgaveup Prestarts Ppre Pfstopped Prunctx Pendst Pgone Pnostop Pstatus Ps1 Pendst2].
     match goal with E : pc _ = IStateSet |- _ => rewrite E in * end.
     destruct (Nat.eqb_spec (launches i2) 0) as [|Hl0]; [reflexivity|].
     destruct Prelaunch as (c & Hc & (Hpol & Hb) & Hel); [reflexivity|lia|].
